@@ -233,9 +233,90 @@ class System(ManagerSystem):
         return issues
 
 
+# ---------------------------------------------------------------- a pickle is read by ANOTHER interpreter
+def _xproc_build():
+    import xdeps
+    m = xdeps.Manager()
+    data = {"a": 1, "b": 0, "c": 0, "n": {"x": 0, "y": 0}, "l": [0, 0]}
+    s = m.ref(data, "s")
+    s["b"] = s["a"] * 2
+    s["n"]["x"] = s["a"] + s["b"]
+    s["l"][1] = abs(s["n"]["x"]) - s["c"]
+    s["n"]["y"] = round(s["l"][1] / 4, 1)
+    return m, data
+
+
+def xproc_child(path):
+    """runs in another interpreter under another hash seed: the restored manager must behave like the original"""
+    import io
+    import contextlib
+    import sys
+    with open(path, "rb") as fh:
+        m2 = pickle.load(fh)
+    m, data = _xproc_build()
+    bad = []
+    d2 = m2.containers["s"]._owner
+    steps = [("a", 7), ("c", 2), ("a", -3), ("b", 1), ("a", 9), ("c", 0)]
+    for key, val in steps:
+        m.containers["s"][key] = val
+        try:
+            m2.containers["s"][key] = val
+        except Exception as e:  # noqa
+            bad.append(f"s[{key!r}] = {val} raised {type(e).__name__}: {e}")
+            break
+        if d2 != data:
+            bad.append(f"after s[{key!r}] = {val}: restored manager holds {d2!r}, a manager built here holds {data!r}")
+            break
+        if m2.dump() != m.dump():
+            bad.append(f"after s[{key!r}] = {val}: definitions {m2.dump()!r} vs {m.dump()!r}")
+            break
+    if not bad:
+        try:
+            with contextlib.redirect_stdout(io.StringIO()):
+                m2.verify()
+        except Exception as e:  # noqa
+            bad.append(f"verify() raised {type(e).__name__}: {e}")
+    print("XPROC " + ("OK" if not bad else "BAD " + bad[0]))
+    sys.exit(0)
+
+
+def job_xproc(job):
+    import os
+    import shutil
+    import subprocess
+    import sys
+    import tempfile
+    m, data = _xproc_build()
+    issues = []
+    d = tempfile.mkdtemp(prefix="c12x-", dir=os.environ.get("XV_SCRATCH_DIR", "/var/tmp"))
+    fn = os.path.join(d, "manager.pkl")
+    n = 0
+    try:
+        with open(fn, "wb") as fh:
+            pickle.dump(m, fh)
+        mine = int(os.environ.get("PYTHONHASHSEED", "0") or 0)
+        for other in (mine, mine + 1, mine + 101, mine + 7):
+            env = dict(os.environ)
+            env["PYTHONHASHSEED"] = str(other)
+            p = subprocess.run([sys.executable, "-c", f"from xv.props import c12; c12.xproc_child({fn!r})"],
+                               env=env, capture_output=True, text=True, cwd=os.getcwd())
+            n += 1
+            line = next((l for l in p.stdout.splitlines() if l.startswith("XPROC")), None)
+            if line != "XPROC OK":
+                issues.append({"kind": "violation", "property": "C12", "finding": None, "config": common.config_info(job),
+                               "what": f"a manager pickled under hash seed {mine} and restored in another interpreter under hash seed {other}: "
+                                       f"{line or ('child failed: ' + p.stderr[-300:])}",
+                               "program": ["pickle.dump(manager) in one interpreter", f"pickle.load in another (PYTHONHASHSEED={other}); six assignments "
+                                           "mirrored on a manager built there"],
+                               "ops": [], "case": {"xproc": other}})
+    finally:
+        shutil.rmtree(d, ignore_errors=True)
+    return {"kind": "xproc", "issues": issues, "interpreters": n}
+
+
 def plan(tier, seed):
     seeds = common.seeds_for(tier, seed, quick=(0,), thorough=(0, 1, 2))
-    jobs = []
+    jobs = [{"name": "another-interpreter", "mode": "compiled", "hashseed": seeds[0], "nproc": 1, "timeout": 600, "args": {"kind": "xproc"}}]
     runs = [("W-mix", "mix", 2), ("W-nest", "nest", 2), ("W-mix-attr", "nest", 2), ("W-flat", "param", 2), ("W-nest-4", "sib", 4)] if tier == "quick" else \
         [("W-nest-4", "sib", 5), ("W-mix", "mix", 2), ("W-nest", "nest", 2), ("W-mix-attr", "mix", 2), ("W-mix-attr", "nest", 2), ("W-flat", "param", 3),
          ("W-nest-4", "param", 3), ("W-nest-4", "nest", 3)]
@@ -251,11 +332,17 @@ def plan(tier, seed):
 
 def run_job(job):
     a = job["args"]
+    if a.get("kind") == "xproc":
+        return job_xproc(job)
     return common.run_bfs(System(WORLDS[a["world"]], alphabet_for(WORLDS[a["world"]], a["alphabet"]), common.config_info(job)), job)
 
 
 def finish(plan_, results):
-    cov, issues = common.merge_bfs(results)
+    xp = [r for r in results if r.get("kind") == "xproc"]
+    cov, issues = common.merge_bfs([r for r in results if r.get("kind") != "xproc"])
+    for r in xp:
+        issues.extend(r["issues"])
+        cov["pickles_restored_in_another_interpreter"] = r["interpreters"]
     cov["samples"] = [{"history": it["program"], "what": it["what"]} for it in issues[:3]] or \
         [{"note": "no issue found", "node_classes_in_alphabet": list(CFG_MIX["templates"])}]
     cov["oracle"] = ("pickle round trip succeeds; copy's dump/tasks/indices/data identical (full canonical digest); "
@@ -264,4 +351,7 @@ def finish(plan_, results):
 
 
 def replay(issue):
+    if "xproc" in issue.get("case", {}):
+        r = job_xproc({"name": "replay", "hashseed": (issue.get("config") or {}).get("hashseed", 0)})
+        return {"still_fails": bool(r["issues"]), "what": r["issues"][0]["what"] if r["issues"] else "ok"}
     return replay_history(System, issue)
